@@ -27,6 +27,56 @@ def oracle_selfcheck(n=4000):
     return k, bad
 
 
+def long_digit_cells(tier):
+    """digit strings as long as a CIF line allows, at every magnitude class: the bignum work space must hold them"""
+    lens = list(range(2020, 2049)) + [600, 1000, 1500, 1800, 1900, 2000]
+    if tier == 'quick':
+        lens = [1000, 2000, 2030, 2039, 2040, 2041, 2044, 2046, 2047, 2048]
+    cells = []
+    for digits in lens:
+        for ex in (308, 307, 306, 305, 300, 290, 250, 200, 100, 17, 0, -17, -100, -300, -307, -308, -320):
+            for lead in ('9', '1', '5', '49'):
+                for form in ('int', 'frac', 'mid', 'su'):
+                    body = (lead * digits)[:digits]
+                    if form == 'int':
+                        s = body + 'e%d' % (ex - digits + 1)
+                    elif form == 'frac':
+                        s = '0.' + body[:-2] + 'e%d' % (ex + 1)
+                    elif form == 'mid':
+                        s = body[:digits // 2] + '.' + body[digits // 2:-1] + 'e%d' % (ex - digits // 2 + 1)
+                    else:
+                        s = '-' + body[:digits - 40] + 'E%+d' % (ex - (digits - 40) + 1) + '(' + body[:20] + ')'
+                    if len(s) <= 2048:
+                        cells.append(s)
+    return cells
+
+
+def work_long(chunk):
+    ex = worker_exec('san')
+    out, n = [], 0
+    for s in chunk:
+        try:
+            a = ex.run(['reset', 'val.create V0 5', 'val.parsenumb V0 %s' % U(s), 'val.num1 V0', 'val.su1 V0'])
+        except Crash as c:
+            out.append((s, 'sanitizer report / crash: %s %s' % (c, c.stderr[c.stderr.find('SUMMARY'):][:200] or c.stderr[-300:])))
+            ex = worker_exec('san')
+            continue
+        n += 1
+        core = s.split('(')[0]
+        want = float(core)
+        if a[2].get('rc') != 0 or a[3].get('rc') != 0:
+            out.append((s, 'parse_numb / get_number answered %r %r' % (a[2], a[3])))
+        elif want not in (float('inf'), float('-inf')) and (want == 0 or abs(want) >= 2.2250738585072014e-308) and float(a[3]['num']) != want:
+            out.append((s, 'value %s, correctly rounded %r' % (a[3]['num'], want)))
+        elif '(' in s:
+            # su scaled to the last digit of the value
+            lastexp = int(core.upper().split('E')[1])
+            wsu = float(s.split('(')[1].rstrip(')') + 'e%d' % lastexp)
+            if wsu not in (float('inf'),) and wsu >= 2.2250738585072014e-308 and float(a[4]['num']) != wsu:
+                out.append((s, 'su %s, correctly rounded %r' % (a[4]['num'], wsu)))
+    return (n, out)
+
+
 def main():
     tier = sys.argv[1] if len(sys.argv) > 1 else 'quick'
     rep = Report('C10', tier, 'exploration')
@@ -50,6 +100,17 @@ def main():
                 _, f, msg = line.split(' ', 2)
                 # signature: family + the failing text (the specific input)
                 rep.violation({'family': f, 'case': msg[:80]}, {'family': f, 'message': msg})
+    cells = long_digit_cells(tier)
+    nlong = 0
+    for res in pmap(work_long, chunked(cells, max(1, len(cells) // (NPROC * 2))), ()):
+        if isinstance(res, dict):
+            rep.violation({'kind': 'executor'}, res)
+            continue
+        k, out = res
+        nlong += k
+        for text, msg in out:
+            rep.violation({'family': 'long-digits', 'case': '%d characters %s...%s: %s' % (len(text), text[:12], text[-14:], msg[:60])}, {'family': 'long-digits', 'text': text, 'message': msg})
+    fam['long-digits'] = [nlong, nlong]
     n, bad = oracle_selfcheck()
     if bad:
         rep.violation({'kind': 'oracle'}, {'why': 'glibc/CPython disagree with exact rational arithmetic', 'cases': bad[:10]})
@@ -58,7 +119,7 @@ def main():
     return rep.finish({'evaluations': ev, 'distinct_nontrivial': nt,
                        'rule': 'accept: ALL strings of length <= %d over "019+-.eE()x" against an independent recogniser (non-trivial = accepted strings); '
                                'grid: all mantissas of <= %d digits with the decimal point at every position x every exponent in [-330,310] against strtod; '
-                               'ties: for every binade (quick: a thinned set) and 7 mantissa patterns the exact value, the exact tie with its successor, tie +-1 ulp of the last decimal digit, '
+                               'long-digits: digit strings of 600..2048 characters (all nines, ones, fives, 49-repeats; integer, fraction, mixed and with uncertainty) at 17 magnitudes from 1e-320 to 1e308, in the ASan/UBSan build, against CPython float(); ties: for every binade (quick: a thinned set) and 7 mantissa patterns the exact value, the exact tie with its successor, tie +-1 ulp of the last decimal digit, '
                                '17/19-digit spellings, 10^(9k) boundaries; format: init_numb/autoinit_numb over classic decimals, binade boundaries and exact decimal ties x scales x su x leading-zero limits x su rules, '
                                'oracle = exact decimal expansion (printf %%.1100f) rounded half-even by string arithmetic' % ((7 if tier == 'thorough' else 6), (4 if tier == 'thorough' else 3)),
                        'samples': ['7e22', '1.5(3)', '0.99999999999999989', 'init_numb(9.995, 0.015, scale 2, max_leading_zeroes 5)'],
